@@ -416,24 +416,45 @@ def r_index_validation(cx):
               "axisswap::new: %s - an element that is not a valid (signed) axis number is accepted and indexes the tuple "
               "at apply time" % why, cx.where(f.term(mag[0][0])["span"]) if mag else cx.where(f.d["span"]))
     if cx.pid in ("C12", "C09"):
-        g = cx.f.fn("inner_op::stack::new")
+        g0 = cx.f.fn("inner_op::stack::new")
         k = 0
         keys_seen = set()
-        for bb, t in g.calls():
+        import pertuple
+        sites = []
+        for bb, t in g0.calls():
+            c = g0.callee(t) or ""
+            if c.endswith("::contains"):
+                lp = g0.innermost_loop(bb)
+                # which series is being validated: the iterator of the enclosing loop
+                src = pertuple.iterator_entry_value(g0, lp) if lp is not None else None
+                key = None
+                if src is not None:
+                    for x in _mentions_call(src, ("series",)):
+                        key = K._const_key(x[2][1]) if len(x[2]) > 1 else None
+                if key in ("push", "pop", "flip"):
+                    sites.append((g0, bb, t, key))
+            elif c.startswith("inner_op::stack::") and c != "inner_op::stack::new" and cx.f.has_fn(c):
+                # a private helper that validates the series handed to it
+                h = cx.f.fn(c)
+                for ai, av in enumerate(g0.arg_terms(bb)):
+                    key = None
+                    for x in _mentions_call(av, ("series",)):
+                        key = K._const_key(x[2][1]) if len(x[2]) > 1 else None
+                    if key not in ("push", "pop", "flip"):
+                        continue
+                    for b2, t2 in h.calls():
+                        if not (h.callee(t2) or "").endswith("::contains"):
+                            continue
+                        lp = h.innermost_loop(b2)
+                        src = pertuple.iterator_entry_value(h, lp) if lp is not None else None
+                        hit = []
+                        if src is not None:
+                            mir.walk(src, lambda y: (hit.append(1) if y == ("arg", ai + 1) else None) or True)
+                        if hit:
+                            sites.append((h, b2, t2, key))
+        for (g, bb, t, key) in sites:
             c = g.callee(t) or ""
-            if not c.endswith("::contains"):
-                continue
-            lp = g.innermost_loop(bb)
             a = g.arg_terms(bb)
-            # which series is being validated: the iterator of the enclosing loop
-            import pertuple
-            src = pertuple.iterator_entry_value(g, lp) if lp is not None else None
-            key = None
-            if src is not None:
-                for x in _mentions_call(src, ("series",)):
-                    key = K._const_key(x[2][1]) if len(x[2]) > 1 else None
-            if key not in ("push", "pop", "flip"):
-                continue
             keys_seen.add(key)
             n += 1
             k += 1
@@ -476,7 +497,8 @@ def r_index_validation(cx):
                 n += 1
                 cx.ob("R-INDEX-VALIDATION", "stack/%s" % key, False,
                       "stack::new does not validate the indices given with `%s` by membership in a list" % key,
-                      cx.where(g.d["span"]))
+                      cx.where(g0.d["span"]))
+        g = g0
         # roll / unroll (m, n): stack_roll turns a negative n into m + n and casts to usize - the constructor therefore
         # bounds the *magnitude* of n by m (a comparison of m with |n|), and tests both for integrality
         for key in ("roll", "unroll"):
